@@ -454,6 +454,8 @@ def hyp_job(job):
 
 
 def run(ctx):
+    from vlib import concur
+    concur.register(ctx, "C07")
     pos, neg = [], []
     for transport in ("udp", "aa55", "tcp"):
         for keep in (False, True):
@@ -473,4 +475,8 @@ def run(ctx):
 
 
 def replay(ctx, case):
+    if isinstance(case, dict) and case.get("overlap") and "callers" in case:
+        from vlib import concur
+        concur.replay(ctx.acc, case, concur.INVARIANTS["C07"], "C07")
+        return
     _apply(ctx.acc, case)
